@@ -17,6 +17,9 @@ type BatchedPrivateIssuer struct {
 }
 
 func NewBatchedPrivateIssuer(key *oprf.PrivateKey) *BatchedPrivateIssuer {
+	// The key object builds its public key lazily on first use: do it here, while the key is
+	// not yet shared, so that concurrent calls on the issuer only ever read it
+	key.Public()
 	return &BatchedPrivateIssuer{
 		tokenKey: key,
 	}
